@@ -29,7 +29,7 @@ BASE = dict(
     track=["0 = N 0 0", "0 = N 1 4", "3 = S 2 10", "4 = E solo", "12 = N 7 2"],
 )
 # un-indented look-alikes of the structural lines: a lone brace with trailing blanks, a header-like line
-BRACES = [RAW + "{ ", RAW + "} ", RAW + "}\t", RAW + " }", RAW + "{{", RAW + "[Song]", RAW + "   ", RAW + "", "{", "}", "50% garbage", "0 = N 1 0 % x", "%s %d %(x)s", "100%%"]
+BRACES = [RAW + "{ ", RAW + "} ", RAW + "}\t", RAW + " }", RAW + "{{", RAW + "[Song]", RAW + "   ", RAW + "", "{", "}", "50% garbage", "0 = N 1 0 % x", "%s %d %(x)s", "100%%", "{0} {x} {} {{", "0 = TS 4 0 = B 120000", "5 = B 1 6 = A 7", "1 = N 0 0 2 = N 1 0", '3 = E solo 4 = E "x"', 'x 0 = E "section a"', "junk 0 = N 0 0", "junk 0 = B 1"]
 GARBAGE = dict(
     sync=["", "garbage", "0 = N 0 0", '0 = E "x"', "0 = B", "0 = TS", "5 = B x", " = B 1", "5 = A", "0 = BB 1"] + BRACES,
     events=["", "garbage", "0 = B 120000", "0 = E solo", "0 = N 0 0", '3 = E "unterminated', "3 = E", '= E "x"'] + BRACES,
